@@ -234,8 +234,31 @@ class Ser(Stub):
 
     def abs(self): return Ser(self.v if self.v is ABSENT else abs(self.v))
     def copy(self, deep=True): return Ser(self.v)
-    def astype(self, t): return Ser(self.v) if t in (float, "float", "float64") else (_ for _ in ()).throw(Unsupported("astype() other than float"))
+
+    def astype(self, t):
+        if t in (float, "float", "float64"):
+            return Ser(self.v if self.v is ABSENT or isinstance(self.v, bool) is False else float(self.v))
+        if t in (int, "int", "int64", "int32"):
+            if self.v is ABSENT:
+                return Ser(ABSENT)
+            if _isnan(self.v) or self.v in (math.inf, -math.inf):
+                raise Unsupported("astype(int) of a missing / infinite value")
+            return Ser(int(self.v))
+        raise Unsupported("astype() other than float / int")
+
     def rename(self, *a, **k): return Ser(self.v)
+
+    # the values of the one row as a NumPy array: same abstraction, no index to align on
+    def to_numpy(self, dtype=None, **k):
+        return self.astype(dtype) if dtype is not None else Ser(self.v)
+
+    @property
+    def values(self):
+        return Ser(self.v)
+
+    def __mod__(self, o): return self._arith(o, lambda a, b: a % b)
+    def __floordiv__(self, o): return self._arith(o, lambda a, b: a // b)
+    def __pow__(self, o): return self._arith(o, lambda a, b: a ** b)
 
 
 def _row(x):
@@ -281,6 +304,82 @@ class NPRow(Stub):
         if isinstance(x, Ser):
             return x.clip(lo, hi)
         raise Unsupported("np.clip of something that is not a series")
+
+    # ---- arrays: a list of numbers is a constant table (NPArr); a series / index column is the one row (Ser)
+    @staticmethod
+    def array(x, dtype=None, **k):
+        if isinstance(x, Ser):
+            return x.astype(dtype) if dtype is not None else Ser(x.v)
+        if isinstance(x, NPArr):
+            return x
+        if isinstance(x, (list, tuple)) and all(_num(e) for e in x):
+            return NPArr([float(e) for e in x] if dtype in (float, "float", "float64") else list(x))
+        raise Unsupported("np.array of something that is neither a list of numbers nor a series")
+
+    asarray = array
+
+    @staticmethod
+    def isin(x, values, **k):
+        if isinstance(x, Ser):
+            return x.isin(list(values))
+        raise Unsupported("np.isin of something that is not a series")
+
+    @staticmethod
+    def mod(a, b):
+        return a % b
+
+    @staticmethod
+    def isnan(x):
+        if isinstance(x, Ser):
+            return x.isnull()
+        if _num(x):
+            return _isnan(x)
+        raise Unsupported("np.isnan of something that is neither a number nor a series")
+
+    @staticmethod
+    def zeros(*a, **k):
+        raise Unsupported("np.zeros (array length is not part of the one-row abstraction)")
+
+    float64 = float
+    int64 = int
+
+
+class NPArr(Stub):
+    """A constant NumPy array of numbers (a lookup table / list of endpoints).  Indexing it with the one row's value looks the entry up."""
+
+    def __init__(self, xs):
+        self.xs = list(xs)
+
+    def __iter__(self):
+        return iter(self.xs)
+
+    def _abs_len(self):
+        return len(self.xs)
+
+    def __getitem__(self, k):
+        if isinstance(k, slice):
+            return NPArr(self.xs[k])
+        if isinstance(k, int):
+            return self.xs[k]
+        if isinstance(k, Ser):
+            if k.v is ABSENT:
+                return Ser(ABSENT)
+            if not isinstance(k.v, int):
+                raise Unsupported("array indexed by a non-integer series")
+            if not -len(self.xs) <= k.v < len(self.xs):
+                from .pyinterp import InterpRaised
+                raise InterpRaised("IndexError", f"index {k.v} out of bounds for a table of {len(self.xs)}")
+            return Ser(self.xs[k.v])
+        raise Unsupported("array index form not modelled")
+
+    def astype(self, t):
+        return NPArr([float(x) for x in self.xs]) if t in (float, "float", "float64") else (NPArr([int(x) for x in self.xs]) if t in (int, "int", "int64") else (_ for _ in ()).throw(Unsupported("astype")))
+
+    def tolist(self):
+        return list(self.xs)
+
+    def __repr__(self):
+        return f"NPArr({self.xs})"
 
 
 class PDRow(Stub):
